@@ -1,4 +1,4 @@
-From BBS Require Import Common.Sx Auth.Auth Auth.AuthProofs Run.R18.
+From BBS Require Import Common.Sx Common.ListX Auth.Auth Auth.AuthProofs Run.R18.
 
 Lemma sx_bool_of_bool b : sx_bool (of_bool b) = b.
 Proof. destruct b; reflexivity. Qed.
